@@ -46,11 +46,13 @@ class Runner(object):
         self.s = H.new_session(horizon=self.horizon)
         self.count = 0
 
-    def run_program(self, text_lines, fresh=False, direct=None):
+    def run_program(self, text_lines, fresh=False, direct=None, horizon=None):
         """-> dict(trace, final, exc, horizon, raw)"""
         if self.s is None or fresh or self.count >= 400:
             self.fresh()
         s = self.s
+        # poll horizon for this program (one poll per executed statement)
+        s.verif_inputs.horizon = horizon or self.horizon
         self.count += 1
         res = dict(trace=None, final=None, exc=None, horizon=False, raw=b'')
         try:
@@ -131,12 +133,14 @@ def judge(part, runner, lines, case, keyinfo, direct=None, direct_model=None, wr
     if wrap is not None:
         outcomes = [wrap(o) for o in outcomes]
     text = MB.program_text(lines)
-    res = runner.run_program(text, direct=direct)
+    # the model knows how many statements the program executes: a generous multiple bounds the run
+    horizon = 20 * max(o.steps for o in outcomes) + 300
+    res = runner.run_program(text, direct=direct, horizon=horizon)
     part.traces += 1
     bad = classify(res, outcomes)
     if bad:
         # confirm on a fresh session before reporting
-        res2 = runner.run_program(text, fresh=True, direct=direct)
+        res2 = runner.run_program(text, fresh=True, direct=direct, horizon=horizon)
         bad2 = classify(res2, outcomes)
         if not bad2:
             raise CheckError('result changed on a fresh session: %r then %r for %r' % (
